@@ -154,7 +154,17 @@ UPPER = uf('py_upper', ['str'], 'str', lambda s: s.upper(), axiom=(
 LOWER = uf('py_lower', ['str'], 'str', lambda s: s.lower(), axiom=(
     'ASCII s: len(s.lower()) == len(s); alphanumeric ASCII s: s.lower() is over [0-9a-z]', _ax_case(_ALNUM_U, _ALNUM_L),
     _nat_case('lower'), _CASE_BATTERY))
-STRIP = uf('py_strip', ['str'], 'str', lambda s: s.strip())
+def _ax_strip(args, res):
+    s, r = args[0].t, res.t
+    sp = z3.StringVal(' ')
+    return z3.And(z3.Not(z3.PrefixOf(sp, r)), z3.Not(z3.SuffixOf(sp, r)), z3.Contains(s, r),
+                  z3.Implies(z3.InRe(s, z3.Star(z3.Range('!', '~'))), r == s))
+
+
+STRIP = uf('py_strip', ['str'], 'str', lambda s: s.strip(), axiom=(
+    's.strip() is a substring of s without leading/trailing blank; a string of visible ASCII characters is unchanged',
+    _ax_strip, lambda a, r: not r.startswith(' ') and not r.endswith(' ') and r in a[0] and
+    (not _re.fullmatch(r'[!-~]*', a[0]) or r == a[0]), [[''], [' a '], ['a b'], ['  '], ['\tx\n']]))
 TITLE = uf('py_title', ['str'], 'str', lambda s: s.title())
 STR_INT = uf('py_str_int', ['int'], 'str', lambda i: str(i), axiom=(
     'str(i) matches -?[0-9]+ and starts with "-" exactly when i < 0', _ax_str_int,
@@ -248,14 +258,23 @@ def str_find(it, s, sub, start=None, end=None):
     if end is not None:
         raise Unsupported('str.find with end')
     L = z3.Length(_sv(s))
-    st = z3.IntVal(0) if start is None else S.clip_index(to_int(lift(start)), L)
-    # python: '' found at start if start <= len; z3 IndexOf agrees for 0 <= start <= len
+    if start is None:
+        return Sym(z3.IndexOf(_sv(s), _sv(sub), z3.IntVal(0)), 'int')
+    i = to_int(lift(start))
+    # (branching instead of nested ite keeps the terms of each path small for the string solvers)
+    if it.branch(Sym(i < 0, 'bool')):
+        st = z3.If(i + L < 0, z3.IntVal(0), i + L)
+    else:
+        st = i
+    # python: nothing (not even '') is found from a start beyond the end; SMT-LIB indexof agrees for 0 <= st <= len
+    if it.branch(Sym(st > L, 'bool')):
+        return -1
     return Sym(z3.IndexOf(_sv(s), _sv(sub), st), 'int')
 
 
 def str_index(it, s, sub, start=None, end=None):
     r = str_find(it, s, sub, start, end)
-    if it.branch(Sym(r.t < 0, 'bool')):
+    if it.branch(cmp(ast.Lt, r, 0)):
         raise RaiseEx(ValueError('substring not found'))
     return r
 
@@ -607,6 +626,8 @@ def m_int(it, v=0, base=None):
         if v.k == 'bool':
             return Sym(to_int(v), 'int')
         if v.k == 'real':
+            if z3.is_to_real(v.t):
+                return Sym(v.t.arg(0), 'int')          # int(float(i)) == i  (A-float: floats are reals)
             return Sym(S.trunc_real(v.t), 'int')
         iv = getattr(v, 'int_value', None)
         if iv is not None and base in (None, 10):
